@@ -13,7 +13,7 @@ from __future__ import annotations
 import ast
 
 from .catalogue import DT, _ModuleNS
-from .interp import ExcCtor, Func, Interp, NoOp, Obj, PyRaise
+from .interp import ExcCtor, Func, Interp, Native, NoOp, Obj, PyRaise  # noqa: F401
 from .source import AnalysisError
 
 STUBS = """
@@ -73,13 +73,6 @@ class Lit:
 class Accepted(Exception):
     def __init__(self, what, args, kwargs):
         self.what, self.args_, self.kwargs = what, args, kwargs
-
-
-class Native:
-    """a Python callable made available to the interpreted code (stubs of library helpers)"""
-
-    def __init__(self, fn, name="native"):
-        self.fn, self.name = fn, name
 
 
 class World:
